@@ -27,9 +27,9 @@ REJECT = (TypeError, ValueError, KeyError)
 class Model:
   """The real container type a TypedTree configuration talks about."""
 
-  def __init__(self, kind: str, partial: bool = False):
+  def __init__(self, kind: str, partial: bool = False, tag: Optional[str] = None):
     # (the schema of the dict kind depends on the mode: its own export configuration)
-    tag = 'dictp' if kind == 'dict' and partial else kind
+    tag = tag or ('dictp' if kind == 'dict' and partial else kind)
     data, r = tlc.export_json('TypedTreeExport', f'C03_export_{tag}.cfg', name=f'c03-export-{tag}', timeout=300)
     self.export_result = r
     self.kind = data['kind']
@@ -38,6 +38,7 @@ class Model:
     self.lkey = data['listkey']
     self.lo, self.hi = data['lo'], data['hi']
     self.tspecs = data.get('tspecs', {})
+    self.accw = bool(data.get('accw', True))
     self.keeper = None
     if kind == 'nest':
       # the nested classes (B, then A which refers to B), registered so that records <-> objects round-trip
@@ -82,7 +83,7 @@ class Model:
       return pg.List(vs.mkvalue(root), value_spec=vs.build(self.spec_rec), allow_partial=partial)
     init = {vs.key_name(k): vs.mkvalue(v) for k, v in root['xs'] if v['t'] != 'missing'}
     if self.kind == 'dict':
-      return pg.Dict(init, value_spec=vs.build(self.spec_rec), allow_partial=partial)
+      return pg.Dict(init, value_spec=vs.build(self.spec_rec), allow_partial=partial, accessor_writable=self.accw)
     init.pop(vs.key_name(2), None)       # the frozen field is not an argument
     return self.cls.partial(**init) if partial else self.cls(**init)
 
@@ -118,7 +119,7 @@ class Model:
     """Constructor as a write path: a new container from `root` without the argument `omit`."""
     init = {vs.key_name(k): vs.mkvalue(v) for k, v in root['xs'] if v['t'] != 'missing' and k != omit}
     if self.kind == 'dict':
-      return pg.Dict(init, value_spec=vs.build(self.spec_rec), allow_partial=partial)
+      return pg.Dict(init, value_spec=vs.build(self.spec_rec), allow_partial=partial, accessor_writable=self.accw)
     init.pop(vs.key_name(2), None) if self.kind == 'obj' else None
     return self.cls.partial(**init) if partial else self.cls(**init)
 
@@ -130,6 +131,15 @@ class Model:
 
   def lpath(self, i: int):
     return i if self.kind in ('list', 'list2') else f'{vs.key_name(self.lkey)}[{i}]'
+
+
+def _ascope(aw: str):
+  """pg.allow_writable_accessors(True / False) or no scope."""
+  if aw == 'T':
+    return pg.allow_writable_accessors(True)
+  if aw == 'F':
+    return pg.allow_writable_accessors(False)
+  return contextlib.nullcontext()
 
 
 def _scope(sc: str):
@@ -152,7 +162,7 @@ def execute(m: Model, c, act: List[Any]) -> Optional[BaseException]:
   try:
     if name in ('DSet', 'DSetAttr', 'OSetAttr', 'Rebind1', 'DSetDefault'):
       sc, k, v = act[1], act[2], act[3]
-      with _scope(sc):
+      with _scope(sc), _ascope(act[4] if len(act) > 4 else 'N'):
         if name == 'DSet':
           c[kn(k)] = val(v)
         elif name in ('DSetAttr', 'OSetAttr'):
@@ -162,13 +172,13 @@ def execute(m: Model, c, act: List[Any]) -> Optional[BaseException]:
         else:
           c.setdefault(kn(k), val(v))
     elif name in ('DDel', 'DPop'):
-      with _scope(act[1]):
+      with _scope(act[1]), _ascope(act[3] if len(act) > 3 else 'N'):
         if name == 'DDel':
           del c[kn(act[2])]
         else:
           c.pop(kn(act[2]))
     elif name == 'DClear':
-      with _scope(act[1]):
+      with _scope(act[1]), _ascope(act[2] if len(act) > 2 else 'N'):
         c.clear()
     elif name in ('DUpdate', 'DIor', 'Rebind2'):
       _, sc, k1, v1, k2, v2 = act
@@ -486,6 +496,14 @@ def replay_behaviour(chk, m: Model, partial: bool, steps, hits: Dict[str, int], 
                             for s_ in steps[:n + 1]],
               'mirror': mirror}
     base_sig = {'action': name, 'kind': m.kind, 'arg': arg_class(m, act), 'spec_out': st['out']}
+    if not m.accw:
+      base_sig['accessor_writable'] = False
+    if name in ('DSet', 'DSetAttr', 'OSetAttr', 'DSetDefault') and len(act) > 4 and act[4] != 'N':
+      base_sig['accessor_scope'] = act[4]
+    elif name in ('DDel', 'DPop') and len(act) > 3 and act[3] != 'N':
+      base_sig['accessor_scope'] = act[3]
+    elif name == 'DClear' and len(act) > 2 and act[2] != 'N':
+      base_sig['accessor_scope'] = act[2]
     if name in ('DSet', 'DSetAttr', 'OSetAttr', 'DSetDefault', 'DDel', 'DPop', 'CtorOmit'):
       base_sig['key'] = act[2]
     elif name == 'Rebind1':
@@ -500,8 +518,10 @@ def replay_behaviour(chk, m: Model, partial: bool, steps, hits: Dict[str, int], 
     except Exception as e:  # pylint: disable=broad-except
       # the clauses cannot even be evaluated on what the call left behind: an unexpected state is a violation
       clauses = ['unreadable_state']
-      if st['out'] in ('err', 'any') and _norm(after) not in alts:
+      if st['out'] in ('err', 'any', 'perm') and _norm(after) not in alts:
         clauses.append('rejected_write_stored')
+      if st['out'] == 'ok' and exc is not None and _norm(after) != _norm(before):
+        clauses.append('failed_call_stored')       # the call raised although acceptable, and left a changed content
       detail['error'] = f'{type(e).__name__}: {e}'
     if m.kind == 'nest' and 'unreadable_state' not in clauses:
       clauses = clauses + stale_facts(m.ext())
@@ -515,6 +535,17 @@ def replay_behaviour(chk, m: Model, partial: bool, steps, hits: Dict[str, int], 
       for cl in sorted(set(clauses)):
         chk.violation(dict(base_sig, clause=cl), dict(detail, violated='Conforms', clause=cl))
       stop = True
+    elif st['out'] == 'perm':
+      # an accessor-style write while accessors are not writable: WritePermissionError and nothing stored
+      if exc is None:
+        chk.violation(dict(base_sig, clause='accessor_write_not_refused'), dict(detail, violated='accessor_writable'))
+        stop = True
+      elif not isinstance(exc, pg.WritePermissionError):
+        chk.violation(dict(base_sig, clause='error_class', error=type(exc).__name__), dict(detail, violated='error class'))
+        stop = True
+      elif _norm(after) not in alts:
+        chk.violation(dict(base_sig, clause='rejected_write_stored'), dict(detail, violated='RejectedWriteNoStore'))
+        stop = True
     elif st['out'] == 'any':
       # don't-care outcome (MISSING written to an undeclared key): raising or not, nothing may be stored
       if exc is not None and not isinstance(exc, REJECT):
@@ -539,6 +570,11 @@ def replay_behaviour(chk, m: Model, partial: bool, steps, hits: Dict[str, int], 
     else:
       if exc is not None and mirror:
         hits['mirror_step_rejected_by_code'] = hits.get('mirror_step_rejected_by_code', 0) + 1
+        stop = True
+      elif exc is not None and _norm(after) != _norm(before):
+        # the call failed although the specification accepts it AND it left a changed content behind
+        chk.violation(dict(base_sig, clause='failed_call_stored', error=type(exc).__name__),
+                      dict(detail, violated='RejectedWriteNoStore'))
         stop = True
       elif exc is not None:
         # the statement does not forbid a stricter implementation, but then the specification no longer
